@@ -291,6 +291,7 @@ func main() {
 		}
 		cfg.UnwindOK = h.opt(*tier, "unwind_ok", "") == "1"
 		cfg.HangIsViolation = h.opt(*tier, "hang_is_violation", "") == "1"
+		cfg.DepthIsViolation = h.opt(*tier, "depth_is_violation", "") == "1"
 		if sk := h.opt(*tier, "sigkeys", ""); sk != "" {
 			cfg.SigLabels = strings.Split(sk, ",")
 		}
